@@ -10,6 +10,46 @@
 import XC.Basic
 namespace XC.C48
 
+/-! ## OID tables: `hashOIDs` and `signatureAlgorithmDetails` -/
+
+abbrev Oid := List Nat
+
+/-- `hashOIDs`: crypto.Hash (3/5/6/7 = SHA-1/256/384/512) ↦ OID -/
+def oidOfHash : Nat → Option Oid
+  | 3 => some [1, 3, 14, 3, 2, 26]
+  | 5 => some [2, 16, 840, 1, 101, 3, 4, 2, 1]
+  | 6 => some [2, 16, 840, 1, 101, 3, 4, 2, 2]
+  | 7 => some [2, 16, 840, 1, 101, 3, 4, 2, 3]
+  | _ => none
+
+/-- `getHashAlgorithmFromOID` / the loop over `hashOIDs` in ParseResponseForCert: 0 = no entry -/
+def hashOfOid (o : Oid) : Nat :=
+  if o = [1, 3, 14, 3, 2, 26] then 3
+  else if o = [2, 16, 840, 1, 101, 3, 4, 2, 1] then 5
+  else if o = [2, 16, 840, 1, 101, 3, 4, 2, 2] then 6
+  else if o = [2, 16, 840, 1, 101, 3, 4, 2, 3] then 7
+  else 0
+
+/-- the `oid` column of `signatureAlgorithmDetails` (x509.SignatureAlgorithm 1 … 12) -/
+def oidOfSigAlg : Nat → Oid
+  | 1 => [1, 2, 840, 113549, 1, 1, 2]
+  | 2 => [1, 2, 840, 113549, 1, 1, 4]
+  | 3 => [1, 2, 840, 113549, 1, 1, 5]
+  | 4 => [1, 2, 840, 113549, 1, 1, 11]
+  | 5 => [1, 2, 840, 113549, 1, 1, 12]
+  | 6 => [1, 2, 840, 113549, 1, 1, 13]
+  | 7 => [1, 2, 840, 10040, 4, 3]
+  | 8 => [2, 16, 840, 1, 101, 3, 4, 3, 2]
+  | 9 => [1, 2, 840, 10045, 4, 1]
+  | 10 => [1, 2, 840, 10045, 4, 3, 2]
+  | 11 => [1, 2, 840, 10045, 4, 3, 3]
+  | 12 => [1, 2, 840, 10045, 4, 3, 4]
+  | _ => []
+
+/-- `getSignatureAlgorithmFromOID`: first table row with that OID, 0 = UnknownSignatureAlgorithm -/
+def sigAlgOfOid (o : Oid) : Nat :=
+  ((List.range 13).drop 1).find? (fun a => oidOfSigAlg a == o) |>.getD 0
+
 /-! ## ParseResponseForCert -/
 
 /-- one SingleResponse as parsed -/
@@ -18,12 +58,22 @@ structure Single where
   good : Bool := false          -- [0] IMPLICIT NULL present
   unknown : Bool := false       -- [2] IMPLICIT NULL present
   crit : Bool := false          -- some singleExtension is critical
-  hash : Nat := 3               -- crypto.Hash of certID.hashAlgorithm: 3/5/6/7 = SHA-1/256/384/512, 0 = other
+  hashOid : Oid := [1, 3, 14, 3, 2, 26]   -- certID.hashAlgorithm.algorithm
   thisUpdate : Int := 0         -- Unix seconds
   nextUpdate : Int := 0
   revokedAt : Int := 0
   reason : Int := 0
   nExt : Nat := 0
+deriving DecidableEq, Repr
+
+/-- crypto.Hash of certID.hashAlgorithm: 3/5/6/7 = SHA-1/256/384/512, 0 = not in `hashOIDs` -/
+def Single.hash (s : Single) : Nat := hashOfOid s.hashOid
+
+/-- one embedded certificate as the standard library sees it -/
+structure CertFact where
+  ok : Bool := true           -- x509.ParseCertificate succeeded
+  signedResp : Bool := false  -- cert.CheckSignature(sigAlg, tbsResponseData, signature) == nil
+  byIssuer : Bool := false    -- issuer.CheckSignature(cert.SignatureAlgorithm, cert.RawTBS, cert.Signature) == nil
 deriving DecidableEq, Repr
 
 /-- everything `ParseResponseForCert` learns from the standard library about the input bytes -/
@@ -38,13 +88,19 @@ structure Facts where
   singles : List Single := []
   ridTag : Nat := 1             -- tag of the ResponderID CHOICE
   ridOk : Bool := true          -- its content parses (RDNSequence / OCTET STRING) with nothing left over
-  ncerts : Nat := 0             -- len(basicResp.Certificates)
-  certOk : Bool := true         -- x509.ParseCertificate(certs[0]) succeeded
-  sigByEmbedded : Bool := false -- certs[0].CheckSignature(sigAlg, tbsResponseData, signature) == nil
-  embeddedByIssuer : Bool := false -- issuer.CheckSignature(certs[0].SignatureAlgorithm, certs[0].RawTBS, certs[0].Signature) == nil
+  certs : List CertFact := []   -- basicResp.Certificates, in order (facts about every one of them)
   sigByIssuer : Bool := false   -- issuer.CheckSignature(sigAlg, tbsResponseData, signature) == nil
-  sigAlg : Nat := 0             -- x509.SignatureAlgorithm of the signatureAlgorithm OID (0 = unknown)
+  sigOid : Oid := []            -- basicResp.SignatureAlgorithm.Algorithm
 deriving DecidableEq, Repr
+
+/-- `len(basicResp.Certificates)` -/
+def Facts.ncerts (f : Facts) : Nat := f.certs.length
+/-- the code only ever looks at `basicResp.Certificates[0]` -/
+def Facts.certOk (f : Facts) : Bool := match f.certs.head? with | some c => c.ok | none => true
+def Facts.sigByEmbedded (f : Facts) : Bool := match f.certs.head? with | some c => c.signedResp | none => false
+def Facts.embeddedByIssuer (f : Facts) : Bool := match f.certs.head? with | some c => c.byIssuer | none => false
+/-- `getSignatureAlgorithmFromOID(basicResp.SignatureAlgorithm.Algorithm)` -/
+def Facts.sigAlg (f : Facts) : Nat := sigAlgOfOid f.sigOid
 
 /-- the property-level content of a returned `*Response` -/
 structure Fields where
@@ -216,18 +272,22 @@ def createResponse (t : Template) (signerKey : Nat) (signerType : KeyType) : Opt
     | none => none
     | some alg =>
       some { single := { serial := serial, good := t.status = 0, unknown := t.status = 2,
-                         crit := t.exts.any id, hash := h, thisUpdate := t.thisUpdate, nextUpdate := t.nextUpdate,
+                         crit := t.exts.any id, hashOid := (oidOfHash h).getD [], thisUpdate := t.thisUpdate, nextUpdate := t.nextUpdate,
                          revokedAt := if revoked then t.revokedAt else zeroTime,
                          reason := if revoked then t.reason else 0, nExt := t.exts.length },
              sigAlg := alg, signer := signerKey, certs := t.cert.toList }
 
 /-- what the standard library will report about a created response when it is checked against `issuer` -/
 def factsOf (r : AbsResp) (producedAt : Int) (issuer : Option Nat) : Facts :=
-  { producedAt := producedAt, singles := [r.single], ridTag := 1, ncerts := r.certs.length,
-    sigByEmbedded := match r.certs.head? with | some c => verifies r.sigAlg && c.key == r.signer | none => false,
-    embeddedByIssuer := match r.certs.head?, issuer with | some c, some i => c.signedBy == i | _, _ => false,
+  { producedAt := producedAt, singles := [r.single], ridTag := 1,
+    certs := r.certs.map (fun c =>
+      { ok := true, signedResp := verifies r.sigAlg && c.key == r.signer,
+        byIssuer := match issuer with | some i => c.signedBy == i | none => false }),
     sigByIssuer := match issuer with | some i => verifies r.sigAlg && r.signer == i | none => false,
-    sigAlg := r.sigAlg }
+    sigOid := oidOfSigAlg r.sigAlg }
+
+/-- `Response.CheckSignatureFrom(issuer)` on a parsed response -/
+def checkSignatureFrom (f : Facts) : Bool := f.sigByIssuer
 
 /-! ## requests -/
 
@@ -236,7 +296,7 @@ structure ReqFacts where
   rest : Bool := false
   hasSig : Bool := false        -- optionalSignature present
   n : Nat := 1                  -- len(requestList)
-  hash : Nat := 3               -- of the first request
+  hashOid : Oid := [1, 3, 14, 3, 2, 26]   -- hashAlgorithm of the first request
   nameHash : Bytes := []
   keyHash : Bytes := []
   serial : Int := 0
@@ -258,14 +318,14 @@ def parseRequest (f : ReqFacts) : ReqRes :=
   if f.rest then .errParse else
   if f.hasSig then .errParse else
   if f.n = 0 then .errParse else
-  if !hashKnown f.hash then .errParse else
-  .ok ⟨f.hash, f.nameHash, f.keyHash, f.serial⟩
+  if hashOfOid f.hashOid = 0 then .errParse else
+  .ok ⟨hashOfOid f.hashOid, f.nameHash, f.keyHash, f.serial⟩
 
 /-- `CreateRequest(cert, issuer, opts)`: `hashName`, `hashKey` = the chosen hash of the issuer's subject
     and public key (computed by the standard library); `none` = ErrUnsupportedAlgorithm -/
 def createRequest (optHash : Nat) (serial : Int) (hashName hashKey : Nat → Bytes) : Option ReqFacts :=
   let h := if optHash = 0 then 3 else optHash
   if !hashKnown h then none else
-  some { hash := h, nameHash := hashName h, keyHash := hashKey h, serial := serial }
+  some { hashOid := (oidOfHash h).getD [], nameHash := hashName h, keyHash := hashKey h, serial := serial }
 
 end XC.C48
